@@ -436,29 +436,43 @@ class Interp:
         scope = Env(f.env)
         params = f.params
         nsplat = sum(1 for p in params if p[2])
-        required = [p for p in params if not p[2] and p[1] is None]
         nonsplat = [p for p in params if not p[2]]
+        if nsplat == 0 and len(args) > len(params):
+            self.err()
+        # a defaulted parameter takes its default exactly when the call supplies no more arguments than there are
+        # non-splat parameters before it; the defaults that are needed are evaluated first, in the fresh call scope, before
+        # any parameter is bound (so they see the defining scope but not the other parameters); then the values are dealt out:
+        # parameters before the splat from the front, those after it from the back, the splat takes what is left
+        vals = list(args)
+        seen = 0
+        needed = []
+        for (name, default, splat) in params:
+            if splat:
+                continue
+            if default is not None and len(args) <= seen:
+                needed.append(default)
+            seen += 1
+        if nsplat == 0 and len(args) + len(needed) != len(params):
+            self.err()      # without a splat the count is checked before any default is evaluated
+        for default in needed:
+            vals.append(self.ev(default, scope))
+        if len(vals) < len(nonsplat):
+            self.err()
         if nsplat == 0:
-            if len(args) > len(params) or len(args) < len(required):
+            if len(vals) != len(params):
                 self.err()
-            # observed: the defaults that are needed are evaluated first, in the fresh call scope, before any
-            # parameter is bound (so they see the defining scope but not the other parameters)
-            vals = list(args) + [self.ev(default, scope) for (_, default, _) in params[len(args):]]
             for (name, _, _), v in zip(params, vals):
                 self.declare(scope, name, v)
         else:
-            # generator only emits (fixed..., ...splat) or (...splat, fixed...) without defaults
-            if len(args) < len(nonsplat):
-                self.err()
             si = [i for i, p in enumerate(params) if p[2]][0]
             before = params[:si]
             after = params[si + 1:]
             for i, (name, _, _) in enumerate(before):
-                self.declare(scope, name, args[i])
-            mid = args[len(before):len(args) - len(after)]
+                self.declare(scope, name, vals[i])
+            mid = vals[len(before):len(vals) - len(after)]
             self.declare(scope, params[si][0], list(mid))
             for j, (name, _, _) in enumerate(after):
-                self.declare(scope, name, args[len(args) - len(after) + j])
+                self.declare(scope, name, vals[len(vals) - len(after) + j])
         try:
             return self.ev(f.body, scope)
         except ReturnEx as r:
